@@ -7,8 +7,13 @@ package agent
 //                          and wait for the receiver's processFrame to finish) and after every step the projection of
 //                          the real state (held frames of every link, relay indices, stream table, exit/forward
 //                          connection records and counter, endpoint observations) is compared with the spec's post-state.
-//   TestZZVRelayScenario : operation level histories (TCP, port forward, UDP, ICMP; puppet peers for colliding ids),
-//                          oracle = bytes delivered + everything empty at the end.
+//   TestZZVRelayScenario : operation level histories (TCP, port forward, UDP) read from $ZZV_SC; links deliver freely,
+//                          every operation runs to quiescence; oracle = bytes delivered at each endpoint equal the
+//                          counterpart's, no endpoint of an uninvolved tunnel closes or receives anything, and after the
+//                          history (everything closed, idle timeout passed) zzvCounts() of every agent is all zero.
+//                          Failures carry the sites at which the tunnel's stream ids collide with another tunnel's.
+//   TestZZVRelayICMP     : ICMP sessions with puppet exits / puppet ingresses (real ingress, real transit): colliding
+//                          ids at the ingress and at the transit, relay clean-up on disconnect.
 //
 // Accessors to unexported state live here (package agent) and in harness/exit, harness/forward (ZZVSnapshot).
 
@@ -280,11 +285,11 @@ type zzvRApp struct {
 	rcv     []string
 	rdEOF   bool
 	// udp
-	utarget *zzvUDPEcho
-	ubase   uint64
-	uassoc  *socks5.UDPAssociation
-	uclient *net.UDPConn
-	urcv    []string
+	utarget  *zzvUDPEcho
+	ubase    uint64
+	uassoc   *socks5.UDPAssociation
+	uclient  *net.UDPConn
+	urcv     []string
 	firstSid uint64 // id of the tunnel on its first hop (operation-level scenarios)
 }
 
@@ -351,10 +356,10 @@ type zzvRWorld struct {
 	variant string // "tcp" (exit handler) | "forward" (forward handler)
 	apps    map[int]*zzvRApp
 	names   map[identity.AgentID]string
-	up      map[string]bool      // "A-X" -> link alive
-	sidmap  map[string]uint64    // link + "/" + real sid -> model sid
-	labels  map[string]string    // frame identity -> label
-	labelOf map[string]string    // label -> identity (uniqueness)
+	up      map[string]bool   // "A-X" -> link alive
+	sidmap  map[string]uint64 // link + "/" + real sid -> model sid
+	labels  map[string]string // frame identity -> label
+	labelOf map[string]string // label -> identity (uniqueness)
 }
 
 func zzvLinkName(a, b string) string {
@@ -583,8 +588,8 @@ func zzvFrameIdent(f *zzvFrame) string {
 // projection in the vocabulary of Relay.tla
 
 type zzvRProj struct {
-	Net  map[string][]string `json:"net"`  // "A>T" -> ["DATA/1/d1i1", ...]
-	Rup  map[string][]string `json:"rup"`  // agent -> ["tcp/1/A/1/X/1", ...]  kind/key sid/upeer/usid/dpeer/dsid
+	Net  map[string][]string `json:"net"` // "A>T" -> ["DATA/1/d1i1", ...]
+	Rup  map[string][]string `json:"rup"` // agent -> ["tcp/1/A/1/X/1", ...]  kind/key sid/upeer/usid/dpeer/dsid
 	Rdn  map[string][]string `json:"rdn"`
 	Ist  map[string][]string `json:"ist"`  // agent -> ["tcp/1/t1"]
 	Pend map[string]int      `json:"pend"` // agent -> pending opens
@@ -1142,14 +1147,14 @@ type zzvRPathStep struct {
 }
 
 type zzvRIn struct {
-	Name     string            `json:"name"`
-	Burn     [][]string        `json:"burn"` // [[agent, peer], ...]: stream ids used up before the path starts
-	Topo     string            `json:"topo"`
-	Variant  string            `json:"variant"`
-	Kinds    map[string]string `json:"kinds"` // tunnel id -> kind
-	States   []json.RawMessage `json:"states"`
-	Acts     []zzvRAct         `json:"acts"`
-	Paths    []struct {
+	Name    string            `json:"name"`
+	Burn    [][]string        `json:"burn"` // [[agent, peer], ...]: stream ids used up before the path starts
+	Topo    string            `json:"topo"`
+	Variant string            `json:"variant"`
+	Kinds   map[string]string `json:"kinds"` // tunnel id -> kind
+	States  []json.RawMessage `json:"states"`
+	Acts    []zzvRAct         `json:"acts"`
+	Paths   []struct {
 		Init  int            `json:"init"`
 		Steps []zzvRPathStep `json:"steps"`
 	} `json:"paths"`
@@ -1886,14 +1891,14 @@ func TestZZVRelayScenario(t *testing.T) {
 // (icmpRelay) are real.  Whether the real exit handler could be exercised is reported ("icmp_exit_real").
 
 type zzvICMPExit struct {
-	p     *zzvPuppet
-	mu    sync.Mutex
-	opens map[uint64]uint64 // stream id -> request id
-	echos []string          // "sid/payload"
+	p      *zzvPuppet
+	mu     sync.Mutex
+	opens  map[uint64]uint64 // stream id -> request id
+	echos  []string          // "sid/payload"
 	closes []uint64
-	seen  int
-	stop  chan struct{}
-	tag   string
+	seen   int
+	stop   chan struct{}
+	tag    string
 }
 
 // serve answers opens (ack without key = no encryption) and echoes ("tag:" + payload)
